@@ -77,10 +77,15 @@ func runHist(w *c10h.World, pol c10h.Policy, hist []int) (string, []string) {
 }
 
 func classOf(what string) string {
+	cls := what
 	if i := strings.Index(what, ":"); i > 0 {
-		return what[:i]
+		cls = what[:i]
 	}
-	return what
+	// the reason a pool is not minable is part of the identity of the finding
+	if cls == "I5/not-minable" && strings.Contains(what, "sequence locks are not met") {
+		cls += "/sequence-locks"
+	}
+	return cls
 }
 
 // confirm re-runs a failing history.  btcd's pool takes a few decisions in Go map
@@ -633,6 +638,7 @@ func main() {
 	worlds["main"] = c10h.MainWorld(base, r.Thorough())
 	worlds["std"] = c10h.StdWorld(base)
 	worlds["wit"] = c10h.WitWorld(base)
+	worlds["locks"] = c10h.LockWorld(base)
 
 	if r.ReplayPath != "" {
 		var rp replay
@@ -663,13 +669,13 @@ func main() {
 		cfgs = []bfsCfg{
 			{"main", "default", 5, 3}, {"main", "default", 6, 2}, {"main", "nopriority", 4, 2}, {"main", "rejectrbf", 4, 2},
 			{"main", "orphans0", 4, 2}, {"main", "orphans1", 4, 2}, {"main", "orphans2", 4, 2},
-			{"std", "standard", 5, 2}, {"std", "std-orphan1", 4, 2}, {"wit", "standard", 5, 2},
+			{"std", "standard", 5, 2}, {"std", "std-orphan1", 4, 2}, {"wit", "standard", 5, 2}, {"locks", "default", 5, 3},
 		}
 	} else {
 		cfgs = []bfsCfg{
 			{"main", "default", 4, 2}, {"main", "nopriority", 3, 1}, {"main", "rejectrbf", 3, 1},
 			{"main", "orphans0", 3, 1}, {"main", "orphans1", 3, 1}, {"main", "orphans2", 3, 1},
-			{"std", "standard", 3, 2}, {"std", "std-orphan1", 3, 1}, {"wit", "standard", 4, 1},
+			{"std", "standard", 3, 2}, {"std", "std-orphan1", 3, 1}, {"wit", "standard", 4, 1}, {"locks", "default", 4, 2},
 		}
 	}
 	if v := os.Getenv("C10_DEV_CFG"); v != "" { // development aid only: world,policy,depth,maxBlock
